@@ -1,20 +1,30 @@
 """C12 — goes on chain before HTLC deadlines; every HTLC disposed of once."""
 import json
 import os
+import threading
 
 from lib.verif import *
+from props import chan_common as cc
+from props import chan_model as cm
 
 THEOREMS = [
     "C12_deadline", "C12_deadline_blocks", "C12_no_spurious", "C12_no_spurious_received",
     "C12_classification_total_direct", "C12_classification_total_refuted",
     "C12_classification_partial_broadcast", "C12_classification_total_fixed",
     "C12_no_failback_with_output", "C12_breach_all_failed",
+    # C12b: shape hypotheses derived from the channel state machine (Arb/Shape.v)
+    "C12_shape_reachable", "C12_shape_reachable_resync", "C12_shape_pending_guard_needed",
+    "C12_shape_dust_disagreement_reachable",
+    "C12_classification_total_direct_reachable",
+    "C12_classification_partial_broadcast_reachable",
+    "C12_classification_total_fixed_reachable",
+    "C12_no_failback_with_output_reachable",
 ]
 MODULE = "LV.Arb.ActionsProps"
 TARGETS = ["theories/Arb/ActionsProps.vo", "theories/Arb/ActionsExec.vo",
-           "theories/Arb/ActionsExamples.vo"]
+           "theories/Arb/ActionsExamples.vo", "theories/Arb/ShapeExamples.vo"]
 HARNESS = ["contractcourt/verif_actions_test.go"]
-WARM = [{"pkg": "contractcourt", "files": HARNESS}]
+WARM = [{"pkg": "contractcourt", "files": HARNESS}] + cc.WARM
 IMPORTS = ("From Coq Require Import List NArith ZArith Bool.\nImport ListNotations.\n"
            "From LV Require Import Arb.ActionsModel Arb.ActionsExec.\n")
 
@@ -278,30 +288,188 @@ def _local_deadline(env, h, height):
     return idx in env["fwd"] or env["uptime"] > env["grace"]
 
 
+
+# ------------------------------------------------ C12b: shape of the HTLC sets
+# The classification theorems are stated for HTLC sets with unique indexes in
+# which every offered HTLC of our commitment is also on the peer's current and
+# pending commitment.  Arb/Shape.v PROVES that for every reachable state of the
+# channel model (C12_shape_reachable); here the same predicate — written from
+# the definition of `shape`, independent of the model — is evaluated on every
+# party dump of real LightningChannel schedules (what chain_watcher would hand
+# to the arbitrator at that moment: ltail = LocalCommitment, rtail =
+# RemoteCommitment, rtip = the pending remote commitment).
+
+
+def _dir_idx(commit, incoming):
+    return [h[2] for h in commit["htlcs"] if bool(h[0]) == incoming]
+
+
+def shape_fails(d):
+    """[failure strings] of one party dump; htlc = [incoming, amt, idx, expiry, hash, on_tx]."""
+    fails = []
+    sets = [("local", d["ltail"]), ("remote", d["rtail"])]
+    if d.get("rtip") is not None:
+        sets.append(("pending", d["rtip"]))
+    # wf: indexes unique per commitment and direction
+    for name, k in sets:
+        for inc in (False, True):
+            ix = _dir_idx(k, inc)
+            if len(ix) != len(set(ix)):
+                fails.append("wf: duplicate %s index on the %s commitment: %s"
+                             % ("received" if inc else "offered", name, sorted(ix)))
+    # local_sub_conf: offered HTLCs of ours are on the peer's current and pending commitment
+    lo = set(_dir_idx(d["ltail"], False))
+    for name, k in sets[1:]:
+        miss = lo - set(_dir_idx(k, False))
+        if miss:
+            fails.append("local_sub_conf: offered htlc %s on our commitment but not on the "
+                         "peer's %s commitment" % (sorted(miss), name))
+    # the cut order it follows from (Shape.inv_cut_order): ours is behind the peer's
+    # commitments in OUR updates and ahead of them in THEIR updates
+    lt = d["ltail"]
+    for name, k in sets[1:]:
+        if lt["ours"] > k["ours"]:
+            fails.append("cut-order: local tail covers %d of our updates, %s only %d"
+                         % (lt["ours"], name, k["ours"]))
+        if k["theirs"] > lt["theirs"]:
+            fails.append("cut-order: %s covers %d of their updates, local tail only %d"
+                         % (name, k["theirs"], lt["theirs"]))
+    # one HTLC, one record (what the projection sets_of relies on)
+    seen = {}
+    for name, k in sets:
+        for h in k["htlcs"]:
+            key = (bool(h[0]), h[2])
+            rec = (h[1], h[3], h[4])
+            if seen.setdefault(key, rec) != rec:
+                fails.append("record: htlc %s differs between commitments: %s vs %s"
+                             % (key, seen[key], rec))
+    return fails
+
+
+def shape_stage(ctx, out, script=None):
+    """Runs the channel harness (real lnwallet, reconnects included) and evaluates
+    `shape` on every party dump.  Results into the dict `out` (thread target)."""
+    env = {"VERIF_CASES": "300" if ctx.thorough else "20",
+           "VERIF_CRASH": "1", "VERIF_CUT": "1", "VERIF_SIDE": "0"}
+    if script:
+        env["VERIF_CHAN_SCRIPT"] = script
+    rows = cc.run_chan_harness(ctx, env=env, suffix="_shape", report=False, corpus=False)
+    last = cc.run_chan_harness.last or {}
+    out["rc"], out["log"] = last.get("rc"), last.get("log", "")
+    out["rows"] = rows
+    st = {"dumps": 0, "with_offered_local": 0, "with_pending": 0, "remote_strictly_more": 0,
+          "pending_differs_from_remote": 0, "dust_disagreement": 0, "after_reconnect": 0,
+          "reloaded_from_disk": 0}
+    bad = []
+    distinct = set()
+    for row in rows:
+        seen_cut = False
+        for where, p, d in cc.dumps_of_case(row):
+            if not seen_cut and where.startswith("step"):
+                i = int(where.split()[1])
+                seen_cut = row["steps"][i]["op"][0] == "cut"
+            st["dumps"] += 1
+            st["reloaded_from_disk"] += 1 if where.endswith("reloaded") else 0
+            st["after_reconnect"] += 1 if seen_cut else 0
+            lo = set(_dir_idx(d["ltail"], False))
+            ro = set(_dir_idx(d["rtail"], False))
+            st["with_offered_local"] += 1 if lo else 0
+            st["remote_strictly_more"] += 1 if ro - lo else 0
+            if d.get("rtip") is not None:
+                st["with_pending"] += 1
+                if d["rtip"]["htlcs"] != d["rtail"]["htlcs"]:
+                    st["pending_differs_from_remote"] += 1
+                rd = {h[2]: h[5] for h in d["rtail"]["htlcs"] if not h[0]}
+                if any((not h[0]) and h[2] in rd and rd[h[2]] != h[5] for h in d["rtip"]["htlcs"]):
+                    st["dust_disagreement"] += 1
+            distinct.add(json.dumps([d["ltail"]["htlcs"], d["rtail"]["htlcs"],
+                                     (d.get("rtip") or {}).get("htlcs")]))
+            f = shape_fails(d)
+            if f and len(bad) < 3:
+                i = int(where.split()[1]) if where.startswith("step") else -1
+                bad.append({"case": row.get("case"), "seed": row.get("seed"),
+                            "chan_type": row.get("chan_type"), "where": where, "party": p,
+                            "fails": f[:5], "dump": {k: d.get(k) for k in ("ltail", "rtail", "rtip")},
+                            "script": {"chan_type": row.get("chan_type"),
+                                       "ops": [s["op"] for s in row["steps"][:i + 1]]}})
+    st["distinct_set_triples"] = len(distinct)
+    # the schedules must be protocol runs of two agreeing peers (otherwise the real
+    # channel has left the model the shape theorem is about): C01's no_errors / agreement;
+    # and what is on disk (what chain_watcher reads) must be what the live object holds:
+    # C02's reload_consistent on the crash observations / restarts
+    tie = []
+    ab = {}
+    for row in rows:
+        if row.get("aborted"):
+            ab[row["aborted"]] = ab.get(row["aborted"], 0) + 1
+        f = cc.all_predicates(row, only={"no_errors", "agreement", "reload_consistent"})
+        for name, fl in f.items():
+            if len(tie) < 2:
+                tie.append({"case": row.get("case"), "seed": row.get("seed"),
+                            "chan_type": row.get("chan_type"), "predicate": name,
+                            "fails": fl[:5],
+                            "script": {"chan_type": row.get("chan_type"),
+                                       "ops": [s["op"] for s in row["steps"]]}})
+    st["aborted"] = ab
+    out["stats"], out["bad"], out["tie"] = st, bad, tie
+
+
+def shape_correspondence(ctx, rows):
+    """The dumps the predicate was evaluated on ARE states of the channel model:
+    replay the schedules on Channel/Model.v (Channel.Exec, vm_compute)."""
+    terms, used = [], 0
+    for row in rows:
+        t, n, _why = cm.case_term(row, with_reload=True, with_cut=True,
+                                  expect_fail=cc.expected_failure(row))
+        terms.append(t)
+        used += n
+    ok, bad, logs = coq_mismatches(ctx.uid("_shape"), cm.IMPORTS, terms,
+                                   shard=max(2, len(terms) // NCPU + 1), timeout=2400)
+    return ok, bad, logs, used
+
 # ----------------------------------------------------------------------- run
 
 
 def run(ctx):
     pr = ctx.proof_stage(MODULE, THEOREMS, TARGETS, extra_trusted=[
-        "Shape hypothesis of the classification theorems (an offered HTLC on our commitment is "
-        "also on the peer's current and pending commitments) is stated in the theorems; it is a "
-        "protocol fact to be discharged by the Channel model (C01), not assumed silently",
+        "Shape hypotheses of the classification theorems (unique indexes; an offered HTLC on our "
+        "commitment is also on the peer's current and pending commitments) are stated in the "
+        "general theorems and DERIVED for the HTLC sets of every reachable state of the channel "
+        "model in the *_reachable theorems (Arb/Shape.v over Channel/Model.v, whose tie to "
+        "lnwallet is C01's; re-run here on the shape-stage schedules)",
         "resolutions_complete hypothesis: lnwallet hands the arbitrator one Incoming/Outgoing"
         "HtlcResolution per HTLC output of the confirmed commitment (exercised by C05)",
         "contract resolvers' own progress after insertion is out of scope here (C13)"])
     env = {}
+    shape_script = None
     if ctx.replay:
         rp = json.load(open(ctx.replay))
         d = rp.get("detail", {})
         case = d.get("case")
-        if case is not None:
+        if isinstance(case, dict) and "ops" in case:
             p = os.path.join(BUILD, "replay_%s.json" % ctx.uid())
             json.dump({"cases": [case]}, open(p, "w"))
             env["VERIF_REPLAY"] = p
+        if isinstance(d.get("script"), dict):
+            shape_script = os.path.join(BUILD, "replay_%s_shape.json" % ctx.uid())
+            json.dump([d["script"]], open(shape_script, "w"))
+    # C12b stage: real channel schedules, in parallel with the arbitrator harness
+    shp = {}
+
+    def _shape():
+        try:
+            shape_stage(ctx, shp, script=shape_script)
+            if shp.get("rows"):
+                shp["corr"] = shape_correspondence(ctx, shp["rows"])
+        except Exception as ex:           # reported below as harness_failed
+            shp["exc"] = repr(ex)
+    th = threading.Thread(target=_shape)
+    th.start()
     rc, trace, out = run_harness(ctx.uid(), "contractcourt", HARNESS, "^TestVerifActions$",
                                  env=env, timeout=1500)
     rows = read_jsonl(trace)
     if rc != 0 or not rows:
+        th.join()
         ctx.violation("harness_failed", "TestVerifActions", {"log": out[-4000:]},
                       signature="harness", failing_input=False)
         return
@@ -335,6 +503,33 @@ def run(ctx):
                        "disagreeing_ops": [{"op": c["ops"][i], "impl": c["obs"][i]}
                                            for i in opsidx[:4]]},
                       signature="actions mismatch", failing_input=bool(predicate(c)))
+    # C12b: shape predicate on the real channel's party dumps + their tie to the model
+    th.join()
+    if shp.get("exc") or shp.get("rc") != 0 or not shp.get("rows"):
+        ctx.violation("harness_failed", "TestVerifChan (shape stage)",
+                      {"exc": shp.get("exc"), "rc": shp.get("rc"), "log": (shp.get("log") or "")[-4000:]},
+                      signature="harness shape", failing_input=False)
+    for b in shp.get("bad", []):
+        ctx.violation("impl_violates_predicate", "C12_shape_reachable", b,
+                      signature="shape " + b["fails"][0][:100])
+    for b in shp.get("tie", []):
+        ctx.violation("impl_violates_predicate", "C12_shape_reachable/%s" % b["predicate"], b,
+                      signature="shape chan %s %s" % (b["predicate"], b["fails"][0][:100]))
+    if "corr" in shp:
+        okc, badc, logsc, usedc = shp["corr"]
+        if not okc:
+            ctx.violation("correspondence_mismatch", "Channel.Exec (shape stage, model evaluation "
+                          "failed)", {"logs": logsc[:3]}, signature="model-eval shape",
+                          failing_input=False)
+        for ci, codes in badc[:3]:
+            row = shp["rows"][ci]
+            stepi = codes[0] if codes else -1
+            ctx.violation("correspondence_mismatch", "Channel.Exec.check_case (shape stage)",
+                          {"case": row.get("case"), "chan_type": row.get("chan_type"),
+                           "step_index": stepi, "code": codes[1:],
+                           "script": {"chan_type": row.get("chan_type"),
+                                      "ops": [s["op"] for s in row["steps"][:stepi + 1]]}},
+                          signature="shape chan mismatch code=%s" % codes[1:], failing_input=False)
     if not pr["ok"] and not ctx.violations:
         ctx.violation("proof_broken", ", ".join(pr["broken"]) or "Arb/Actions build",
                       {"log": pr["log"][-4000:]}, signature="proof", failing_input=False)
@@ -374,6 +569,18 @@ def run(ctx):
         "predicate_failures_by_signature": sigs,
         "samples": [rows[0]["ops"][:2]],
         "correspondence_mismatches": len(bad),
+        "shape_stage": {
+            "rule": "seeded asynchronous schedules (reconnects included) on two real "
+                    "LightningChannels; `shape` (wf, local_sub_conf for remote and pending, cut "
+                    "order, one record per HTLC) evaluated on EVERY party dump of every step; "
+                    "the same schedules replayed on Channel/Model.v (Channel.Exec)",
+            "schedules": len(shp.get("rows") or []),
+            "steps": sum(len(r["steps"]) for r in shp.get("rows") or []),
+            "stats": shp.get("stats"),
+            "predicate_failures": len(shp.get("bad") or []),
+            "steps_checked_against_model": (shp.get("corr") or (0, 0, 0, 0))[3],
+            "correspondence_mismatches": len((shp.get("corr") or (0, [], 0, 0))[1]),
+        },
     })
     ctx.assumptions += [
         "the arbitrator goroutine is not started: the harness calls handleBlockbeat / "
